@@ -81,13 +81,8 @@ impl AffiliatePortfolioSecurityStatuses {
         af: &Affiliate,
         v: Rc<PortfolioSecurityStatus>,
     ) {
-        let last_share_balance = match self.last_post_status_for_affiliate.get(&af) {
-            Some(status) => status.share_balance,
-            None => GreaterEqualZeroDecimal::zero(),
-        };
-        let expected_all_share_bal = *v.share_balance
-            + *self.latest_all_affiliates_share_balance
-            - *last_share_balance;
+        let expected_all_share_bal =
+            *self.all_affiliates_share_balance_with(af, v.share_balance);
 
         assert_eq!(
             af.registered(),
@@ -99,13 +94,40 @@ impl AffiliatePortfolioSecurityStatuses {
         );
         assert_eq!(*v.all_affiliate_share_balance, expected_all_share_bal,
             "In security {}, af {}, v.all_affiliate_share_balance ({}) != expected_all_share_bal ({}) \
-            (*v.share_balance ({}) + *self.latest_all_affiliates_share_balance ({}) - *last_share_balance ({})",
+            (*v.share_balance ({}) + the latest share balances of the other affiliates; \
+            *self.latest_all_affiliates_share_balance was {})",
             self.security, af.name(), v.all_affiliate_share_balance, expected_all_share_bal,
-            *v.share_balance, *self.latest_all_affiliates_share_balance, *last_share_balance);
+            *v.share_balance, *self.latest_all_affiliates_share_balance);
 
         self.last_post_status_for_affiliate.insert(af.clone(), v.clone());
         self.latest_all_affiliates_share_balance = v.all_affiliate_share_balance;
         self.latest_affiliate = af.clone();
+    }
+
+    /// The share balance across all affiliates, if `af`'s balance were `af_balance`.
+    ///
+    /// This is summed from the individual latest balances, in a fixed order, rather
+    /// than by adjusting the previous total. An incrementally adjusted total can
+    /// lose its last decimal digit (eg. after a 1.0-for-3.0 split, once the total
+    /// needs more integer digits than its parts) and then end up smaller than the
+    /// balance of the only affiliate still holding shares, or disagree with the
+    /// consistency check in set_latest_post_status.
+    pub fn all_affiliates_share_balance_with(
+        &self,
+        af: &Affiliate,
+        af_balance: GreaterEqualZeroDecimal,
+    ) -> GreaterEqualZeroDecimal {
+        let mut others: Vec<(&Affiliate, &Rc<PortfolioSecurityStatus>)> = self
+            .last_post_status_for_affiliate
+            .iter()
+            .filter(|(other_af, _)| *other_af != af)
+            .collect();
+        others.sort_by(|a, b| a.0.id().cmp(b.0.id()));
+        let mut total = af_balance;
+        for (_, status) in others {
+            total += status.share_balance;
+        }
+        total
     }
 
     pub fn get_next_pre_status(
